@@ -22,7 +22,10 @@ func c11Fix() *Fix {
 	return f
 }
 
-func c11Scenarios(tier string) []*h.Scenario {
+func c11Scenarios(tier string) []*h.Scenario { return c11ScenariosFor(tier, []string{"mem", "dir"}) }
+
+// c11ScenariosFor: the scenarios on the given stores (C13 adds the memory store over a directory).
+func c11ScenariosFor(tier string, stores []string) []*h.Scenario {
 	f := c11Fix()
 	const repo = "r"
 	items := []string{"c", "l1", "l2", "e", "I1", "I2", "A0", "A1", "A2", "A9"}
@@ -181,7 +184,7 @@ func c11Scenarios(tier string) []*h.Scenario {
 		}
 		alpha := []h.Step{putMan(repo, "I1", "t"), putMan(repo, "I2", "t"), putMan(repo, "I1", "t2"), putMan(repo, "A1", f.Items["A1"].Dig), putMan(repo, "A2", f.Items["A2"].Dig),
 			del("base"), del(f.Items["I1"].Dig), del(f.Items["A0"].Dig), pushBlob(repo, "l2"), getTags, getTag("base"), getRef}
-		for _, store := range []string{"mem", "dir"} {
+		for _, store := range stores {
 			for i := range alpha {
 				for j := i; j < len(alpha); j++ {
 					a, b := alpha[i], alpha[j]
@@ -203,7 +206,7 @@ func c11Scenarios(tier string) []*h.Scenario {
 			}
 		}
 	}
-	for _, store := range []string{"mem", "dir"} {
+	for _, store := range stores {
 		for _, d := range defs {
 			store, d := store, d
 			repos := d.repos
